@@ -360,7 +360,7 @@ func c18R4(e *Engine) {
 				continue
 			}
 			ok := false
-			instrs(fn, func(in ssa.Instruction) {
+			instrsDeep(fn, func(in ssa.Instruction) {
 				if c, isC := in.(*ssa.Call); isC && c.Call.StaticCallee() == desc {
 					os := strings.Join(e.origins(c.Call.Args[1]), "|")
 					if strings.HasSuffix(os, "Input.TableName") {
